@@ -157,8 +157,7 @@ def _awake_ind_field(e):
     return None
 
 
-def advance_filter(res, uf):
-    fn = uf.funcs["mj_advance"]
+def advance_filter(res, uf, fn):
     defs = r_misc.local_defs(fn)
     line = fn.get("line")
     # state writes performed by mj_advance itself
@@ -187,7 +186,10 @@ def advance_filter(res, uf):
     changed = True
     while changed:
         changed = False
-        for v, ds in defs.items():
+        for did, ds in dict.items(defs):
+            v = defs.names[did]
+            if len(defs.ids.get(v, ())) != 1:
+                continue          # a re-declared name cannot be told apart in condition texts
             if filt.get(v) or not ds or any(kind not in ("init", "assign") for kind, _ in ds):
                 continue
             good = True
@@ -217,7 +219,7 @@ def advance_filter(res, uf):
         if cond is None:
             continue
         key, pol = cond_var(cond)
-        if key in defs and key not in filt:
+        if key in defs.ids and len(defs.ids[key]) == 1 and key not in filt:
             if any(_awake_ind_field(x) for a in arms if a is not None for x in cir.walk(a)
                    if x.get("k") == "MemberExpr"):
                 filt[key] = False
@@ -391,9 +393,11 @@ def run(res, tier):
     res.rule("R-WHO-WRITES", "d->tree_asleep written only by engine_sleep.c and the reset path", floor=7)
     who_writes(res, g)
     res.rule("R-FILTER", "qvel/qpos writes of mj_advance go through the awake index lists under the sleep filter", floor=5)
-    wids = advance_filter(res, uf)
+    # statement-level static helpers of mj_advance are expanded: extracting a block into a helper changes nothing
+    adv, _ = r_misc.inline_helpers(uf, uf.funcs["mj_advance"])
+    wids = advance_filter(res, uf, adv)
     res.rule("R-SLEEP-REEVAL", "mj_sleep precedes integration; slept trees => mj_forwardSkip and mj_updateSleep first", floor=1)
-    ctx = paths.explore(SleepReeval(wids), uf, uf.funcs["mj_advance"])
+    ctx = paths.explore(SleepReeval(wids), uf, adv)
     if ctx.reports:
         seen = set()
         for r in ctx.reports:
@@ -452,6 +456,14 @@ MUTANTS = [
                 "static void wakeConstrained(const mjModel* m, mjData* d) {\n  if (mj_wakeEquality(m, d)) {\n    mj_updateSleep(m, d);\n  }\n}\n\n"
                 "// position-dependent computations\nvoid mj_fwdPosition(const mjModel* m, mjData* d) {"),
                (FWD, "  if (mj_wakeEquality(m, d)) {\n    mj_updateSleep(m, d);\n  }\n\n  TM_RESTART;", "  wakeConstrained(m, d);\n\n  TM_RESTART;")]},
+    {"id": "ctl-extract-velocity-helper", "expect": None,
+     "edits": [(FWD, "// advance state and time\n//   act_dot: activation derivatives",
+                "static void advanceVelocity(const mjModel* m, mjData* d, const mjtNum* qacc, int filtered) {\n"
+                "  if (filtered) {\n    mju_addToSclInd(d->qvel, qacc, d->dof_awake_ind, m->opt.timestep, d->nv_awake);\n"
+                "  } else {\n    mju_addToScl(d->qvel, qacc, m->opt.timestep, m->nv);\n  }\n}\n\n"
+                "// advance state and time\n//   act_dot: activation derivatives"),
+               (FWD, "  if (sleep_filter) {\n    mju_addToSclInd(d->qvel, qacc, d->dof_awake_ind, m->opt.timestep, d->nv_awake);\n  } else {\n"
+                "    mju_addToScl(d->qvel, qacc, m->opt.timestep, m->nv);\n  }\n", "  advanceVelocity(m, d, qacc, sleep_filter);\n")]},
     {"id": "ctl-reorder-independent", "expect": None,
      "edits": [(FWD, "  mj_comPos(m, d);\n  mj_camlight(m, d);\n  mj_flex(m, d);", "  mj_camlight(m, d);\n  mj_comPos(m, d);\n  mj_flex(m, d);")]},
 ]
